@@ -37,7 +37,7 @@ func valueRecursionRules(c *an.Ctx, keyPrefix string) {
 	c.Count("functions_analysed", len(funcs))
 	// A8-L on the detector
 	n := loopCompleteness(c, inner, keyPrefix+"-looplen")
-	c.RequireMin("range loops in the cycle detector", n, 3)
+	c.RequireMin("range loops in the cycle detector", n, 2)
 	detectorComplete := true
 	for _, o := range c.Obs {
 		if o.Verdict == an.Violated && len(o.Key) > len(keyPrefix)+8 && o.Key[:len(keyPrefix)+8] == keyPrefix+"-looplen" {
@@ -79,6 +79,8 @@ func runC14(c *an.Ctx) {
 		return
 	}
 	valueRecursionRules(c, "recursion")
+	// a decoded count never sizes an allocation unbounded (or negative after conversion)
+	decodedSizesRuleFor(c, "vm-value-decoders", 1, "vm/neovm/types")
 	// deserialize: bound compared first
 	if d := mustFunc(c, nvt+".(*VmValue).deserialize"); d != nil {
 		gs := an.BoundGuards(d)
